@@ -351,3 +351,207 @@ Proof.
       cnt_simp. destruct (pp_closed x); [cnt_simp; lia|]. unfold pheld at 1 3. simp_p. rewrite <- (firstn_skipn n (pp_q x)) at 1. cnt_simp. lia.
     + destruct (_ <? _)%N; inversion H; subst; cbn [freed]; cnt_simp; lia.
 Qed.
+
+(* ================================================================== raw SUB *)
+Definition XInv (s : xsub) : Prop := xs_rq s <> [] -> xs_q s = [].
+Lemma xsub_init_inv : XInv xsub_init. Proof. intros H. reflexivity. Qed.
+
+Lemma run_getq_nil_q rq : run_getq [] rq = ([], rq, []).
+Proof. destruct rq; reflexivity. Qed.
+Lemma run_getq_nil_rq q : run_getq q [] = (q, [], []).
+Proof. destruct q; reflexivity. Qed.
+Lemma run_getq_one q a : run_getq q [a] = match q with m :: q' => (q', [], [Complete a E_OK (Some m)]) | [] => ([], [a], []) end.
+Proof. destruct q as [|m q']; cbn; [reflexivity|]. now rewrite run_getq_nil_rq. Qed.
+
+(* no filtering: what happens to an arriving message does not depend on its content *)
+Theorem xsub_arrival_law mf rf s p m :
+  xs_closed s = false ->
+  (forall a r, xs_rq s = a :: r ->
+     xsub_step mf rf s (PRecvDone p 0 m) = (run_notify (mkXsub (xs_q s) (xs_cap s) r false (xs_recvable s)), [Complete a E_OK (Some m); TranRecv p])) /\
+  (xs_rq s = [] -> length (xs_q s) < xs_cap s ->
+     xsub_step mf rf s (PRecvDone p 0 m) = (run_notify (mkXsub (xs_q s ++ [m]) (xs_cap s) [] false (xs_recvable s)), [TranRecv p])) /\
+  (xs_rq s = [] -> xs_cap s <= length (xs_q s) ->
+     xsub_step mf rf s (PRecvDone p 0 m) = (s, [Free m; TranRecv p])).
+Proof.
+  intros C. cbn [xsub_step N.eqb negb]. rewrite C. repeat split; intros.
+  - now rewrite H.
+  - rewrite H. apply Nat.ltb_lt in H0. now rewrite H0.
+  - rewrite H. apply Nat.ltb_ge in H0. now rewrite H0.
+Qed.
+
+Theorem xsub_step_law mf rf s o s' outs :
+  XInv s -> xsub_step mf rf s o = (s', outs) ->
+  XInv s' /\
+  Sublist (delivered outs ++ xs_q s') (xs_q s ++ arrived o) /\
+  (forall x, cnt x (xs_q s ++ arrived o) = cnt x (xs_q s' ++ delivered outs ++ freed outs)).
+Proof.
+  intros I H. unfold XInv in *.
+  assert (SAME: s' = s -> delivered outs = [] -> freed outs = arrived o ->
+     (xs_rq s' <> [] -> xs_q s' = []) /\ Sublist (delivered outs ++ xs_q s') (xs_q s ++ arrived o) /\
+     (forall x, cnt x (xs_q s ++ arrived o) = cnt x (xs_q s' ++ delivered outs ++ freed outs))).
+  { intros -> E1 E2. rewrite E1, E2. cbn [app]. repeat split; auto.
+    rewrite <- (app_nil_r (xs_q s)) at 1. apply sl_app; [apply sl_refl|constructor]. }
+  destruct o as [k a nb m|k a nb|a rv|p peer|p|p rv|p rv m|k op|k|k| |now]; cbn [xsub_step arrived] in *;
+    try (inversion H; subst; apply SAME; reflexivity).
+  - (* PRecv *)
+    destruct (nb && _) eqn:G; [inversion H; subst; apply SAME; reflexivity|].
+    destruct (xs_rq s) as [|a0 r0] eqn:R.
+    + cbn [app] in H. rewrite run_getq_one in H. destruct (xs_q s) as [|m q'] eqn:Q; inversion H; subst; simp_x.
+      * repeat split; auto; try constructor.
+      * cbn [delivered freed]. change (E_OK =? 0)%N with true. cbn iota. rewrite app_nil_r. repeat split; try congruence; [apply sl_refl|].
+        intros x. cnt_simp. lia.
+    + rewrite (I ltac:(congruence)) in *. rewrite run_getq_nil_q in H. inversion H; subst; simp_x. repeat split; auto; constructor.
+  - (* PCancel *)
+    destruct (has_id a (xs_rq s)); inversion H; subst; [|apply SAME; reflexivity]. simp_x. cbn [delivered freed].
+    rewrite !app_nil_r. repeat split; try apply sl_refl; auto.
+    intros Hne. apply I. intros E. rewrite E in Hne. apply Hne. reflexivity.
+  - destruct (negb _); inversion H; subst; apply SAME; reflexivity.
+  - (* PRecvDone *)
+    destruct (N.eqb_spec rv 0) as [->|Hrv]; cbn [negb] in H.
+    2:{ inversion H; subst. apply SAME; auto. }
+    destruct (xs_closed s).
+    { inversion H; subst. apply SAME; auto. }
+    destruct (xs_rq s) as [|a r] eqn:R.
+    + destruct (length (xs_q s) <? xs_cap s); inversion H; subst; simp_x; [|apply SAME; auto].
+      cbn [delivered freed]. rewrite !app_nil_r. repeat split; auto; try apply sl_refl. intros Hne; congruence.
+    + inversion H; subst; simp_x. cbn [delivered freed]. change (E_OK =? 0)%N with true. cbn iota.
+      rewrite (I ltac:(congruence)). cbn. repeat split; auto; try apply sl_refl.
+  - (* PSetOpt *)
+    destruct k; [inversion H; subst; apply SAME; reflexivity|]. destruct op; try (inversion H; subst; apply SAME; reflexivity).
+    + destruct (_ <? _)%N; inversion H; subst; apply SAME; reflexivity.
+    + destruct (_ <? _)%N; [inversion H; subst; apply SAME; reflexivity|].
+      set (ex := length (xs_q s) - (n + 1)) in *.
+      assert (SK: Sublist (skipn ex (xs_q s)) (xs_q s)).
+      { rewrite <- (firstn_skipn ex (xs_q s)) at 2. apply sl_app_skip. apply sl_refl. }
+      destruct rf.
+      * destruct (xs_rq s) as [|a r] eqn:R.
+        -- rewrite run_getq_nil_rq in H. inversion H; subst; simp_x.
+           rewrite !delivered_app, !freed_app, delivered_map_Free, freed_map_Free. cbn [delivered freed app]. rewrite !app_nil_r.
+           split; [congruence|]. split; [exact SK|]. intros x. rewrite <- (firstn_skipn ex (xs_q s)) at 1. cnt_simp. lia.
+        -- rewrite (I ltac:(congruence)) in *. subst ex. rewrite skipn_nil, firstn_nil, run_getq_nil_q in H.
+           inversion H; subst; simp_x. cbn. repeat split; auto; constructor.
+      * inversion H; subst; simp_x. rewrite !delivered_app, !freed_app, delivered_map_Free, freed_map_Free. cbn [delivered freed app]. rewrite !app_nil_r.
+        split; [intros Hne; rewrite (I Hne); now rewrite skipn_nil|]. split; [exact SK|].
+        intros x. rewrite <- (firstn_skipn ex (xs_q s)) at 1. cnt_simp. lia.
+  - (* PSockClose *)
+    inversion H; subst; simp_x. rewrite !delivered_app, !freed_app, delivered_map_Free, freed_map_Free, delivered_fail, freed_fail.
+    cbn [app]. rewrite !app_nil_r. split; [auto|]. split; [constructor|]. intros x. cnt_simp. lia.
+Qed.
+
+(* non-blocking receive, repaired nni_msgq_aio_get: immediate; NNG_EAGAIN exactly when nothing is
+   queued, i.e. exactly when the blocking form would have been left waiting *)
+Theorem xsub_nb_fixed rf s k a s' outs :
+  XInv s -> xsub_step true rf s (PRecv k a true) = (s', outs) ->
+  exists rv x, outs = [Complete a rv x] /\ xs_rq s' = xs_rq s /\
+    (rv = E_AGAIN <-> xs_q s = []) /\ (rv = E_AGAIN -> s' = s /\ x = None) /\
+    (rv <> E_AGAIN -> rv = E_OK /\ exists m r, xs_q s = m :: r /\ x = Some m /\ xs_q s' = r) /\
+    (xs_q s = [] <-> snd (xsub_step true rf s (PRecv k a false)) = []) /\
+    (poll_r (xsub_poll s) = Some true <-> rv <> E_AGAIN).
+Proof.
+  intros I H. unfold XInv in I. cbn [xsub_step] in *. cbn [negb orb andb] in *.
+  assert (P: poll_r (xsub_poll s) = Some (negb (match xs_q s with [] => true | _ => false end))) by reflexivity.
+  rewrite P. clear P.
+  destruct (xs_q s) as [|m r] eqn:Q.
+  - rewrite orb_true_r in H. inversion H; subst. exists E_AGAIN, None.
+    split; [reflexivity|]. split; [reflexivity|]. split; [tauto|]. split; [auto|].
+    split; [intros X; exfalso; apply X; reflexivity|]. split.
+    + rewrite run_getq_nil_q. cbn. tauto.
+    + cbn. split; [discriminate|]. intros X. exfalso. apply X. reflexivity.
+  - destruct (xs_rq s) as [|a0 r0] eqn:R; [|specialize (I ltac:(congruence)); discriminate].
+    cbn [negb orb andb app] in *. rewrite run_getq_one in *. inversion H; subst; simp_x.
+    exists E_OK, (Some m).
+    split; [reflexivity|]. split; [reflexivity|]. split; [split; intros; discriminate|]. split; [intros; discriminate|].
+    split; [intros _; split; [reflexivity|]; exists m, r; auto|]. split.
+    + cbn. split; intros; discriminate.
+    + cbn. split; [intros _; discriminate|reflexivity].
+Qed.
+
+(* the pinned nni_msgq_aio_get: a reachable state with a message queued and the descriptor raised in
+   which the non-blocking receive answers NNG_EAGAIN although the blocking form completes at once *)
+Definition xrefute_ops : list pop := [PPipeStart 1%N PROTO_PUB; PRecvDone 1%N 0%N (mkPmsg [] [1%N])].
+Fixpoint xsub_run (mf rf : bool) (s : xsub) (ops : list pop) : xsub :=
+  match ops with [] => s | o :: r => xsub_run mf rf (fst (xsub_step mf rf s o)) r end.
+Theorem xsub_nb_pinned_witness :
+  let s := xsub_run false false xsub_init xrefute_ops in
+  poll_r (xsub_poll s) = Some true /\
+  snd (xsub_step false false s (PRecv None 9%N true)) = [Complete 9%N E_AGAIN None] /\
+  snd (xsub_step false false s (PRecv None 9%N false)) = [Complete 9%N E_OK (Some (mkPmsg [] [1%N]))].
+Proof. vm_compute. repeat split; reflexivity. Qed.
+Theorem xsub_nb_fixed_same_history :
+  snd (xsub_step true true (xsub_run true true xsub_init xrefute_ops) (PRecv None 9%N true)) = [Complete 9%N E_OK (Some (mkPmsg [] [1%N]))].
+Proof. vm_compute. reflexivity. Qed.
+
+(* ================================================================== wrappers used by Properties_C05 *)
+Theorem sub_mirror_pinned_refuted :
+  exists ops, sub_ops_ok false sub_init ops /\ ~ RInv (fst (sub_run false sub_init ops)).
+Proof. exists refute_ops. split; [cbn; tauto|]. vm_compute. discriminate. Qed.
+
+Theorem sub_mirror_holds ops :
+  sub_ops_ok true sub_init ops ->
+  let s := fst (sub_run true sub_init ops) in
+  forall a, poll_r (sub_poll s) = Some true <-> exists m, snd (sub_step true s (PRecv None a true)) = [Complete a E_OK (Some m)].
+Proof.
+  intros Hok s a. destruct (sub_run_inv true ops sub_init sub_init_inv Hok) as (_ & _ & R & _).
+  specialize (R eq_refl (proj1 sub_init_rinv)). fold s in R. unfold RInv in R. cbn [sub_poll poll_r]. rewrite R.
+  rewrite <- (master_nonempty_recv true s a). split; [intros E; inversion E; reflexivity|intros ->; reflexivity].
+Qed.
+
+Theorem sub_no_missed_wakeup fixed ops :
+  sub_ops_ok fixed sub_init ops ->
+  let s := fst (sub_run fixed sub_init ops) in
+  forall a m, snd (sub_step fixed s (PRecv None a true)) = [Complete a E_OK (Some m)] -> poll_r (sub_poll s) = Some true.
+Proof.
+  intros Hok s a m E. destruct (sub_run_inv fixed ops sub_init sub_init_inv Hok) as (_ & R & _).
+  specialize (R (proj2 sub_init_rinv)). fold s in R. cbn [sub_poll poll_r]. f_equal. apply R.
+  apply (master_nonempty_recv fixed s a). eauto.
+Qed.
+
+Theorem sub_queue_invariant_run fixed ops :
+  sub_ops_ok fixed sub_init ops ->
+  let s := fst (sub_run fixed sub_init ops) in
+  SInv s /\ forall c m, In c (sb_ctxs s) -> In m (sc_lmq c) -> subscribed c m.
+Proof.
+  intros Hok s. destruct (sub_run_inv fixed ops sub_init sub_init_inv Hok) as (I & _). fold s in I.
+  split; auto. intros c m Hc Hm. eapply queued_matches; eauto.
+Qed.
+
+Theorem xsub_nb_pinned_refuted :
+  exists s, XInv s /\ poll_r (xsub_poll s) = Some true /\
+    snd (xsub_step false false s (PRecv None 9%N true)) = [Complete 9%N E_AGAIN None] /\
+    snd (xsub_step false false s (PRecv None 9%N false)) <> [].
+Proof.
+  exists (xsub_run false false xsub_init xrefute_ops). split; [intros H; vm_compute in H; exfalso; apply H; reflexivity|].
+  vm_compute. repeat split; auto. discriminate.
+Qed.
+
+Theorem pub_poll_mirror s c a m :
+  poll_w (pub_poll s) = Some true /\ In (Complete a E_OK None) (snd (pub_step s (PSend c a true m))) /\
+  ~ In (Complete a E_AGAIN None) (snd (pub_step s (PSend c a true m))).
+Proof.
+  destruct (pub_send_immediate s c a true m) as (pre & E & N & _). rewrite E. cbn [snd]. split; [reflexivity|]. split.
+  - apply in_or_app. right. right. now left.
+  - intros Hin. apply in_app_or in Hin as [Hin|[Hin|[Hin|[]]]]; try discriminate. eapply N; eauto.
+Qed.
+
+Fixpoint pub_run (s : pub) (ops : list pop) : pub * list (pop * pub * list pout) :=
+  match ops with
+  | [] => (s, [])
+  | o :: r => let (s1, outs) := pub_step s o in let (s2, tr) := pub_run s1 r in (s2, (o, s, outs) :: tr)
+  end.
+Fixpoint pub_ops_ok (s : pub) (ops : list pop) : Prop :=
+  match ops with [] => True | o :: r => pub_op_ok s o /\ pub_ops_ok (fst (pub_step s o)) r end.
+Fixpoint ptr_in (tr : list (pop * pub * list pout)) : list pmsg :=
+  match tr with [] => [] | (o, s, outs) :: r => pub_in s o ++ ptr_in r end.
+Fixpoint ptr_out (tr : list (pop * pub * list pout)) : list pmsg :=
+  match tr with [] => [] | (o, s, outs) :: r => pub_wire s o ++ freed outs ++ ptr_out r end.
+Theorem pub_conservation_run ops : forall s, PubInv s -> pub_ops_ok s ops ->
+  let (s', tr) := pub_run s ops in
+  PubInv s' /\ forall y, cnt y (pub_owned s ++ ptr_in tr) = cnt y (pub_owned s' ++ ptr_out tr).
+Proof.
+  induction ops as [|o r IH]; intros s HI Hok; cbn [pub_run].
+  - split; auto.
+  - cbn [pub_ops_ok] in Hok. destruct Hok as [Ho Hr]. destruct (pub_step s o) as [s1 outs] eqn:S. cbn [fst] in Hr.
+    pose proof (pub_step_inv _ _ _ _ HI Ho S) as HI1. pose proof (pub_conservation_step_law _ _ _ _ HI S) as L.
+    specialize (IH s1 HI1 Hr). destruct (pub_run s1 r) as [s2 tr]. destruct IH as [A B]. split; auto.
+    intros y. cbn [ptr_in ptr_out]. specialize (L y). specialize (B y). cnt_simp. lia.
+Qed.
